@@ -417,3 +417,74 @@ func needsNow(pi *pkgInfo, dir, fn string) bool {
 	nowFuncs[key] = res
 	return res
 }
+
+// ------------------------------------------------------------------ promoted fields
+
+// desugarPromoted rewrites x.f, where f is a field promoted from an embedded struct of x's type, into
+// x.Emb.f (recording the types of the new nodes), so that field reads and field updates see only direct
+// fields. Returns e unchanged when f is a direct field or not a field at all.
+func (t *ftr) desugarPromoted(e *ast.SelectorExpr) *ast.SelectorExpr {
+	fv, isField := t.pi.info.Uses[e.Sel].(*types.Var)
+	if !isField || !fv.IsField() {
+		return e
+	}
+	n := namedOf(t.typeOf(e.X))
+	if n == nil {
+		return e
+	}
+	st, ok := n.Underlying().(*types.Struct)
+	if !ok {
+		return e
+	}
+	for i := 0; i < st.NumFields(); i++ {
+		if st.Field(i).Name() == e.Sel.Name {
+			return e // direct
+		}
+	}
+	// breadth-first over embedded structs
+	type step struct {
+		path []*types.Var
+		st   *types.Struct
+	}
+	queue := []step{{nil, st}}
+	for depth := 0; depth < 4 && len(queue) > 0; depth++ {
+		var next []step
+		for _, q := range queue {
+			for i := 0; i < q.st.NumFields(); i++ {
+				f := q.st.Field(i)
+				if !f.Embedded() {
+					continue
+				}
+				en := namedOf(f.Type())
+				if en == nil {
+					continue
+				}
+				est, ok := en.Underlying().(*types.Struct)
+				if !ok {
+					continue
+				}
+				p := append(append([]*types.Var{}, q.path...), f)
+				for j := 0; j < est.NumFields(); j++ {
+					if est.Field(j).Name() == e.Sel.Name {
+						var x ast.Expr = e.X
+						for _, pv := range p {
+							id := &ast.Ident{Name: pv.Name(), NamePos: e.Sel.Pos()}
+							t.pi.info.Uses[id] = pv
+							sel := &ast.SelectorExpr{X: x, Sel: id}
+							t.pi.info.Types[sel] = types.TypeAndValue{Type: pv.Type()}
+							x = sel
+						}
+						out := &ast.SelectorExpr{X: x, Sel: e.Sel}
+						if tv, ok := t.pi.info.Types[e]; ok {
+							t.pi.info.Types[out] = tv
+						}
+						return out
+					}
+				}
+				next = append(next, step{p, est})
+			}
+		}
+		queue = next
+	}
+	return e
+}
